@@ -327,38 +327,34 @@ class SymEval:
 
 
 def reduce_squares(rf: RF, ev: SymEval) -> RF:
-    """substitute N[...]^2 by the recorded square and sin^2 -> 1 - cos^2 (numerator/denominator separately)"""
-    def fix(poly: Poly) -> Poly:
-        out = Poly()
+    """substitute N[...]^(2k) by the recorded square^k (also negative k), |x|^2 by x^2 and sin^2 by 1 - cos^2"""
+    def fix(poly: Poly) -> RF:
+        out = RF.const(0)
         for mono, c in poly.t.items():
-            term = Poly({(): c})
+            term = RF.const(c)
             for atom, e in mono:
-                if atom in ev.norms and e.denominator == 1 and e >= 2:
+                if atom in ev.norms and e.denominator == 1 and abs(int(e)) >= 2:
                     sq = ev.norms[atom]
-                    if sq.d != Poly.const(1):
-                        raise NotSym("rational square under a norm")
-                    reps, rest = int(e) // 2, int(e) % 2
-                    for _ in range(reps):
-                        term = term * sq.n
+                    k, rest = divmod(int(e), 2) if e > 0 else (-((-int(e)) // 2), -((-int(e)) % 2))
+                    term = term * sq.pow(Fraction(k))
                     if rest:
-                        term = term * Poly.atom(atom)
+                        term = term * RF.atom(atom, rest)
                 elif atom.startswith("sin[") and e.denominator == 1 and e >= 2:
                     cosn = "cos[" + atom[4:]
                     reps, rest = int(e) // 2, int(e) % 2
-                    one_minus = Poly.const(1) - Poly.atom(cosn, 2)
+                    one_minus = RF.const(1) - RF.atom(cosn, 2)
                     for _ in range(reps):
                         term = term * one_minus
                     if rest:
-                        term = term * Poly.atom(atom)
+                        term = term * RF.atom(atom)
                 else:
-                    term = term * Poly.atom(atom, e)
+                    term = term * RF.atom(atom, e)
             out = out + term
         return out
-    prev = None
-    n, d = rf.n, rf.d
+    cur = rf
     for _ in range(4):
-        n2, d2 = fix(n), fix(d)
-        if n2 == n and d2 == d:
+        nxt = fix(cur.n) / fix(cur.d)
+        if nxt == cur and repr(nxt) == repr(cur):
             break
-        n, d = n2, d2
-    return RF(n, d)
+        cur = nxt
+    return cur
